@@ -137,6 +137,8 @@ class RefPG:
             else:
                 l[2].update(attrs)
             return ['unit']
+        if sc.none_value(op):
+            raise Raised('prop_val must not be None')
         if k == 'upd_node':
             if op[3] == 'Class':
                 raise Raised('class')
@@ -291,6 +293,10 @@ def lock_oracle(ops, obs):
         rs, rd = so[i]['r'], do[i]['r']
         vs, vd = sc.views('shared', ssn[i]), sc.views('disjoint', dsn[i])
         tag = '%s step %d %s' % ('', i, k)
+        if sc.none_value(op):
+            for name, ob in (('shared', so[i]), ('disjoint', do[i])):
+                if ob['r'][0] == 'ok' or ob['s'] is not None:
+                    return 'none-value: %s step %d %s with prop_val=None was not refused / changed the store' % (name, i, k)
         # ---- directly stated properties (both backends, every history)
         for name, r in (('shared', rs), ('disjoint', rd)):
             if k == 'unset_node' and op[3] in IDENTITY and r[0] == 'ok':
@@ -483,6 +489,8 @@ class Lock(Stream):
                 out.append(sc.emptying_scenario(rng, extra=rng.randrange(0, 6)))
             elif r < 0.27:
                 out.append(sc.late_add_scenario(rng, extra=rng.randrange(0, 6)))
+            elif r < 0.34:
+                out.append(sc.delete_then_add_scenario(rng, extra=rng.randrange(0, 6)))
             elif r < 0.75:
                 # inside the reference model's scope for long: no merge, no identity rewriting, well-formed imports
                 out.append(sc.gen_history(rng, rng.choice([6, 10, 15, 20, 30]), weights=dict(self.W, merge=0),
@@ -506,6 +514,8 @@ class Lock(Stream):
     def to_coq(self, case, obs):
         items = []
         for op, a, b in zip(case, obs['shared'], obs['disjoint']):
+            if sc.none_value(op):
+                continue      # refused by `assert prop_val is not None` (checked by the oracle: raises, store unchanged)
             items.append('(%s, (%s, %s), (%s, %s))' % (sc.q_op(op), sc.q_res(a['r']), sc.q_snap('shared', a['s']),
                                                        sc.q_res(b['r']), sc.q_snap('disjoint', b['s'])))
         return clist(items)
